@@ -50,7 +50,9 @@ RULE = ('random call graphs: 1-5 levels, 1-2 callables per level drawn from func
         'parameter values: it has to deliver nothing (None); every 5th case adds a derived attribute whose body FAILS while '
         'its instance is unrelated (division by the number of related instances / attribute of an empty handle): read in '
         'the failing population (outcome not compared, the reference is not asked), repaired from Python (relate), read '
-        'again (= a fresh evaluation), broken, read, repaired, read')
+        'again (= a fresh evaluation), broken, read, repaired, read; every 5th case writes to a derived attribute (from Python '
+        'and in the body of another callable) and reads it again from Python, in an expression and in a where clause: '
+        'it stays derived; string constants contain apostrophes (single, doubled, leading, trailing, only apostrophes)')
 EXHAUSTIVE = {'quick': False, 'thorough': False}
 ASSUMPTIONS = ['bodies are type-correct, terminating and error-free under the reference semantics (decided by Spec)',
                'callables do not delete instances; callables used in where clauses and derived attributes do not change the population',
@@ -188,7 +190,7 @@ def gen_model(rng, max_levels, body_stmts):
         if ty == 'integer':
             text = r.choice(['0', '7', '42', '-3', '100'])
         elif ty == 'string':
-            text = r.choice(['abc', '', 'x y'])
+            text = r.choice(['abc', '', 'x y', "it's", "it''s", "''", "'", "'lead", "trail'", "R1.''owns''", "''''"])
         else:
             text = r.choice(['true', 'false', 'TRUE', 'False'])
         consts.append(('K%d' % (k + 1), ty, text))
@@ -649,9 +651,10 @@ def add_novalue(rng, callables, entries, pop):
 
 
 def _skipped_by_spec(e):
-    """a derived-attribute read made in a population in which its body FAILS: the reference semantics is not asked at
-    all (the read has no effect); its outcome is not compared, what follows it is"""
-    return e[0] == 'dattr' and e[-1] == 'fails'
+    """a derived-attribute read made in a population in which its body FAILS, or a WRITE from Python to a derived attribute
+    (no stored value exists: the write has no effect, whether it is refused or ignored): the reference semantics is not
+    asked at all; the outcome is not compared, what follows it is"""
+    return e[0] in ('dattr', 'set') and e[-1] == 'fails'
 
 
 def expand_spec(case, canon):
@@ -672,6 +675,44 @@ def blank_failed(case, canon):
             if ((e[0] == 'fn' and len(e) > 3 and e[3] == 'fails') or _skipped_by_spec(e)) and k < len(canon[1]):
                 canon[1][k] = ['ignored']
     return canon
+
+
+def add_derived_write(rng, callables, entries, pop):
+    """a derived attribute is DERIVED on every read, also after somebody tried to store a value under its name: a write from
+    Python (`inst.dw = 5`), a write in the body of another callable (`q.dw = 0;` - the reference runs that body without
+    the statement), then reads from Python, inside an expression and inside a where clause of another body"""
+    r = rng
+    cls = r.choice([c for c in ('A', 'B') if pop['inst'][c]] or ['A'])
+    if not pop['inst'][cls]:
+        return entries
+    lvl = max([x['level'] for x in callables] or [0])
+    body = [['setattr', ['self'], 'dw', ['bin', '+', ['bin', '*', ['attr', ['self'], 'n'], ['int', 2]], ['int', 1]]]]
+    h = _sig('derived', 'dw', cls, [], 'integer', True)
+    h.update(recursive=False, level=lvl, body=body, text=G.render(body), cost=1, nav=False)
+    callables.append(h)
+    sel = [['select_from', 'many', 'qs', cls, None]]
+    wr_ref = sel + [['assign', 'k', ['int', 0]], ['foreach', 'q', 'qs', [['assign', 'k', ['bin', '+', ['var', 'k'], ['int', 1]]]]],
+                    ['return', ['var', 'k']]]
+    wr_py = sel + [['assign', 'k', ['int', 0]],
+                   ['foreach', 'q', 'qs', [['setattr', ['var', 'q'], 'dw', ['int', r.choice([0, 1000, -7])]],
+                                           ['assign', 'k', ['bin', '+', ['var', 'k'], ['int', 1]]]]],
+                   ['return', ['var', 'k']]]
+    w = _sig('function', 'wrdw', None, [], 'integer', False)
+    w.update(recursive=False, level=lvl + 1, body=wr_ref, ref_text=G.render(wr_ref), text=G.render(wr_py), cost=2, writes_derived=True)
+    callables.append(w)
+    rd = [['select_from', 'many', 'qs', cls, ['bin', '==', ['bin', '%', ['bin', '*', ['attr', ['selected'], 'dw'], ['attr', ['selected'], 'dw']], ['int', 2]], ['int', 1]]],
+          ['assign', 'k', ['un', 'cardinality', ['var', 'qs']]],
+          ['foreach', 'q', 'qs', [['assign', 'k', ['bin', '+', ['bin', '*', ['var', 'k'], ['int', 3]], ['attr', ['var', 'q'], 'dw']]]]],
+          ['return', ['var', 'k']]]
+    rf = _sig('function', 'rddw', None, [], 'integer', True)
+    rf.update(recursive=False, level=lvl + 1, body=rd, text=G.render(rd), cost=6)
+    callables.append(rf)
+    idx = r.randrange(len(pop['inst'][cls]))
+    read = ['dattr', cls, idx, 'dw']
+    block = [list(read), ['fn', 'rddw', {}], ['set', cls, idx, 'dw', r.choice([5, 0, -1]), 'fails'], list(read), ['fn', 'rddw', {}],
+             ['fn', 'wrdw', {}], list(read), ['fn', 'rddw', {}], ['set', cls, idx, 'n', r.choice([4, 9])], list(read), ['fn', 'rddw', {}]]
+    k = r.randrange(len(entries) + 1)
+    return entries[:k] + block + entries[k:]
 
 
 def add_failing_derived(rng, callables, entries, pop):
@@ -985,6 +1026,8 @@ def generate(ctx):
             entries = add_novalue(r.fork('novalue'), callables, entries, pop)
         if i % 10 == 9:
             entries = add_builtin_ees(r.fork('builtin'), callables, entries)
+        if i % 5 == 1:
+            entries = add_derived_write(r.fork('dwrite'), callables, entries, pop)
         if i % 5 == 3:
             entries = add_failing_derived(r.fork('faild'), callables, entries, pop)
         if i % 10 == 4 and entries:
@@ -1218,6 +1261,8 @@ def _judge(case, obs, calls, raised):
     stats['family_' + case.get('family', 'graph')] = 1
     if any(c['name'] == 'samecall' for c in case['callables']):
         stats['same_named_callables_of_different_kinds'] = 1
+    if any(c.get('writes_derived') for c in case['callables']):
+        stats['derived_attribute_read_after_a_write_to_its_name'] = 1
     if any(c.get('fails_when_unrelated') for c in case['callables']):
         stats['derived_attribute_read_after_a_failed_read'] = 1
     for c in case['callables']:
